@@ -117,3 +117,30 @@ pub fn h_decode_arbitrary<const M: usize>(n: usize, as_set: bool) {
     }
     kani::cover!(d < n, "reached");
 }
+
+/// `Deserialize::deserialize_in_place` (a defaulted method): decoding in place into a
+/// non-empty container must give exactly what a fresh decode gives.
+pub fn h_decode_in_place<const N: usize>(len: usize) {
+    use serde::Deserialize;
+    let src: Set<u8, N> = any_set_len(len);
+    let msrc: Map<u8, u8, N> = any_map_len(len);
+    let mut buf = [0u8; 8 + 8];
+    let cfg = bincode::config::legacy();
+    let n = bincode::serde::encode_into_slice(&src, &mut buf, cfg).unwrap();
+    let mut place: Set<u8, N> = any_set();
+    {
+        let mut dec = bincode::serde::BorrowedSerdeDecoder::from_slice(&buf[..n], cfg, ());
+        let r = Set::<u8, N>::deserialize_in_place(dec.as_deserializer(), &mut place);
+        assert!(r.is_ok(), "C20: in-place deserialization into a container of sufficient capacity succeeds");
+    }
+    assert!(place == src && smodel(&place).wf(), "C20: in-place deserialization yields a container equal to the original, whatever it held before");
+    let n = bincode::serde::encode_into_slice(&msrc, &mut buf, cfg).unwrap();
+    let mut mplace: Map<u8, u8, N> = any_map();
+    {
+        let mut dec = bincode::serde::BorrowedSerdeDecoder::from_slice(&buf[..n], cfg, ());
+        let r = Map::<u8, u8, N>::deserialize_in_place(dec.as_deserializer(), &mut mplace);
+        assert!(r.is_ok(), "C20: in-place deserialization of a map succeeds");
+    }
+    assert!(mplace == msrc && model(&mplace).wf(), "C20: in-place deserialization of a map yields a map equal to the original");
+    kani::cover!(true, "reached");
+}
